@@ -79,4 +79,11 @@ def check_case(case):
         p2, c2 = [int(v) for v in out][pad:], [None] * nq
     check_predictions(r, case, p2, c2, "batch positions %d.." % pad)
     cl.append("positions_below_and_above_n_train")
+    if case.get("prelude"):
+        # the same case on a model object WITHOUT the earlier history: the stored constant / density range that prediction uses are
+        # those of the last fit, so both objects must predict identically
+        twin = knncase.run(dict(case, prelude=[]), predict=True, need_symmetric=False, allow_negative=True)
+        if not isinstance(twin, str):
+            require((r.preds, r.clusters) == (twin.preds, twin.clusters), "predict:uses_the_last_fits_density_model", lambda: "after the history %r the model predicts %r / %r, a fresh model fitted on the same data predicts %r / %r" % (case["prelude"], r.preds, r.clusters, twin.preds, twin.clusters))
+        cl.append("with_history")
     return Outcome.ok(nontrivial=ntc > 0, classes=cl)
